@@ -31,7 +31,7 @@ STUBS = [
 ]
 OUTSIDE = ['segments longer than the per-shape bound (2-4 characters)', 'route sets beyond the enumerated menu',
            'custom converters; uuid / dt / float converter internals (C level or strptime)', 'more than 3 path segments']
-BUDGET = {'quick': 330, 'thorough': 2700}
+BUDGET = {'quick': 330, 'thorough': 900}
 
 FIELD = re.compile(r'{([^}:]*)(?::([^}(]*)(?:\(([^}]*)\))?)?}')
 
